@@ -247,13 +247,26 @@ func c16Run(s *Shard) {
 	sampled := false
 	for _, method := range allMethods {
 		for _, subset := range []bool{false, true} {
-			for variant := 0; variant < 3; variant++ { // observed range, declared range, c1 strictly negative (observed)
+			for variant := 0; variant < 5; variant++ { // observed range, declared range, c1 strictly negative, c3 single-valued, undeclared extra values
 				root := rootRequest(method, subset, variant == 1)
 				if variant == 2 {
 					root = negativeVariant(root)
 				}
+				if variant == 3 {
+					for _, a := range asL(root["knownAlternatives"]) {
+						asM(asM(a)["criteria"])["c3"] = 2.0
+					}
+				}
+				if variant == 4 {
+					if method == "weightedSum" || method == "owa" || method == "choquetIntegral" {
+						continue // these methods reject values for undeclared criteria
+					}
+					for i, a := range asL(root["knownAlternatives"]) {
+						asM(asM(a)["criteria"])["undeclared"] = float64(i) + 0.5
+					}
+				}
 				for pi, pre := range prefixes {
-					if variant == 2 && pi > 12 {
+					if variant >= 2 && pi > 12 {
 						continue
 					}
 					if !s.Take() {
